@@ -30,13 +30,13 @@ func C17_Duration() {
 	n := vf.IntClass[int]("n")
 	vf.Assume(n >= 0)
 	vf.Assume(n <= maxN)
-	n2 := vf.IntLike(n, "n2")
-	vf.Assume(n2 <= maxN)
+	// non-decreasing everywhere follows from one step at a time: n and its successor
+	n2 := n + 1
 	d, d2 := f.Duration(n), f.Duration(n2)
 	vf.Cover("class")
 	// |d - n*1e9/f| <= 1/2 + rounding   <=>   |d*f - n*1e9| <= f/2 + n*1e9*2^-51
 	vf.Assert("duration-within-half-a-nanosecond", vf.LinDiffLE(int64(d), r, int64(n), 1e9, r/2, -51))
-	vf.Assert("duration-non-decreasing-inside-class", vf.Implies(n <= n2, d <= d2))
+	vf.Assert("duration-non-decreasing-step", d <= d2)
 	if r <= 1000000 {
 		vf.Cover("round-trip-claimed")
 		vf.Assert("count-to-duration-and-back", f.Events(d) == n)
@@ -50,13 +50,12 @@ func C17_Events() {
 	d := vf.IntClass[int64]("d")
 	vf.Assume(d >= 0)
 	vf.Assume(d <= maxD)
-	d2 := vf.IntLike(d, "d2")
-	vf.Assume(d2 <= maxD)
+	d2 := d + 1
 	e, e2 := f.Events(time.Duration(d)), f.Events(time.Duration(d2))
 	vf.Cover("class")
 	// |e - d*f/1e9| <= 1/2 + rounding   <=>   |e*1e9 - d*f| <= 1e9/2 + d*f*2^-51
 	vf.Assert("events-within-half-an-event", vf.LinDiffLE(int64(e), 1e9, d, r, 5e8, -51))
-	vf.Assert("events-non-decreasing-inside-class", vf.Implies(d <= d2, e <= e2))
+	vf.Assert("events-non-decreasing-step", e <= e2)
 }
 
 // C17_Junctions (concrete): the values at every bit-length junction are ordered, gluing the per-class results.
